@@ -535,4 +535,184 @@ theorem sync_crash_atomic_log
   · intro img himg
     exact phaseC post (List.prefix_refl _) img himg
 
+/-! ## Start state with a pending, un-synced WAL truncation
+
+`bitbox` does not fsync the truncation of the WAL at the end of a sync (`truncate_wal(.., false)`): when the next sync
+starts, the effect `walSet none` of the previous one may still be un-synced.  The theorems above start from a flushed
+state `⟨d0, []⟩`; this section starts from `⟨d0, vol0⟩` where `vol0` holds only WAL truncations (and also accepts WAL
+truncations anywhere before the meta write: the old image's WAL is inert). -/
+
+section pending
+variable (P : Params Content MetaRec WalRec TreeAbs) (L : LogParams MetaRec LogRec)
+variable (d0 : Disk Content MetaRec WalRec LogRec)
+
+def AllowedPreL' : Eff Content MetaRec WalRec LogRec → Prop
+  | .walSet none => True
+  | .walSet (some w) => P.walSeqn w ≠ P.seqn d0.mt
+  | .logSet l => absLog L d0.mt l = absLog L d0.mt d0.log
+  | .page f pn c => AllowedPre P d0 (.page f pn c)
+  | .setMeta _ => False
+
+def GoodAL' (d : Disk Content MetaRec WalRec LogRec) : Prop :=
+  d.mt = d0.mt ∧
+  (∀ f pn, (P.reach d0.mt f pn ∨ f = File.fHt) → d.pages f pn = d0.pages f pn) ∧
+  (d.wal = d0.wal ∨ d.wal = none ∨ ∃ w, d.wal = some w ∧ P.walSeqn w ≠ P.seqn d0.mt) ∧
+  absLog L d0.mt d.log = absLog L d0.mt d0.log
+
+theorem goodAL'_applyEff (d : Disk Content MetaRec WalRec LogRec) (e : Eff Content MetaRec WalRec LogRec)
+    (hg : GoodAL' P L d0 d) (ha : AllowedPreL' P L d0 e) : GoodAL' P L d0 (applyEff d e) := by
+  obtain ⟨hm, hp, hw, hl⟩ := hg
+  cases e with
+  | page f pn c =>
+    obtain ⟨hf, hr⟩ := ha
+    refine ⟨hm, ?_, hw, hl⟩
+    intro f' pn' h
+    simp only [applyEff]
+    by_cases heq : f' = f ∧ pn' = pn
+    · obtain ⟨rfl, rfl⟩ := heq
+      rcases h with h | h
+      · exact absurd h hr
+      · rcases hf with hf | hf <;> rw [hf] at h <;> cases h
+    · rw [if_neg heq]; exact hp f' pn' h
+  | setMeta m => exact absurd ha (by simp [AllowedPreL'])
+  | walSet w =>
+    cases w with
+    | none => exact ⟨hm, hp, Or.inr (Or.inl rfl), hl⟩
+    | some w => exact ⟨hm, hp, Or.inr (Or.inr ⟨w, rfl, ha⟩), hl⟩
+  | logSet l => exact ⟨hm, hp, hw, ha⟩
+
+theorem goodAL'_abs (hinert : ∀ b, htView P d0 b = d0.pages File.fHt b)
+    (d : Disk Content MetaRec WalRec LogRec) (hg : GoodAL' P L d0 d) : absOfL P L d = absOfL P L d0 := by
+  obtain ⟨hm, hp, hw, hl⟩ := hg
+  have h1 : absOf P d = absOf P d0 := by
+    rcases hw with hw | hw | hw
+    · exact goodA_abs P d0 hinert d ⟨hm, hp, Or.inl hw⟩
+    · have htree : P.absTree d.mt d.pages = P.absTree d0.mt d0.pages := by
+        rw [hm]; exact P.frame _ _ _ (fun f pn h => hp f pn (Or.inl h))
+      have hht : htView P d = htView P d0 := by
+        funext b
+        rw [hinert b]
+        simp only [htView, hw]
+        exact hp File.fHt b (Or.inr rfl)
+      simp [absOf, htree, hht]
+    · exact goodA_abs P d0 hinert d ⟨hm, hp, Or.inr hw⟩
+  simp only [absOfL, h1, hm, hl]
+
+/-- **Phase A from a state with pending WAL truncations** -/
+theorem phaseAL'_images (hinert : ∀ b, htView P d0 b = d0.pages File.fHt b)
+    (vol0 : List (Eff Content MetaRec WalRec LogRec)) (hvol0 : ∀ e ∈ vol0, e = Eff.walSet none)
+    (p : List (Ev Content MetaRec WalRec LogRec)) (hp : ∀ ev ∈ p, EvA (AllowedPreL' P L d0) ev)
+    (img : Disk Content MetaRec WalRec LogRec) (himg : IsImage (run ⟨d0, vol0⟩ p) img) :
+    absOfL P L img = absOfL P L d0 :=
+  goodAL'_abs P L d0 hinert img
+    (invG_images (GoodAL' P L d0) (AllowedPreL' P L d0) (goodAL'_applyEff P L d0) p ⟨d0, vol0⟩
+      ⟨⟨rfl, fun _ _ _ => rfl, Or.inl rfl, rfl⟩, fun e he => by rw [hvol0 e he]; trivial⟩ hp img himg)
+
+/-- **C03 / C04 with the rollback log, started while the previous sync's WAL truncation is still un-synced.** -/
+theorem sync_crash_atomic_log_pending
+    (hinert : ∀ b, htView P d0 b = d0.pages File.fHt b)
+    (vol0 : List (Eff Content MetaRec WalRec LogRec)) (hvol0 : ∀ e ∈ vol0, e = Eff.walSet none)
+    (pre post : List (Ev Content MetaRec WalRec LogRec)) (m1 : MetaRec) (w1 : WalRec)
+    (hpre : ∀ ev ∈ pre, EvA (AllowedPreL' P L d0) ev)
+    (hflushed : (run ⟨d0, vol0⟩ pre).vol = [])
+    (hwal : (run ⟨d0, vol0⟩ pre).dur.wal = some w1)
+    (hseq : P.walSeqn w1 = P.seqn m1)
+    (hpost : PostOKL P L (run ⟨d0, vol0⟩ pre).dur m1 w1
+      ⟨applyEff (run ⟨d0, vol0⟩ pre).dur (.setMeta m1), []⟩ post) :
+    (∀ p, p <+: pre ++ ([Ev.eff (.setMeta m1), Ev.fsync File.fMeta] ++ post) →
+       ∀ img, IsImage (run ⟨d0, vol0⟩ p) img →
+         absOfL P L img = absOfL P L d0 ∨
+         absOfL P L img = (absNew P (run ⟨d0, vol0⟩ pre).dur m1 w1, absLog L m1 (run ⟨d0, vol0⟩ pre).dur.log)) ∧
+    (∀ img, IsImage (run ⟨d0, vol0⟩ (pre ++ ([Ev.eff (.setMeta m1), Ev.fsync File.fMeta] ++ post))) img →
+       absOfL P L img = (absNew P (run ⟨d0, vol0⟩ pre).dur m1 w1, absLog L m1 (run ⟨d0, vol0⟩ pre).dur.log)) := by
+  rcases hsA : run (⟨d0, vol0⟩ : Exec Content MetaRec WalRec LogRec) pre with ⟨dA, volA⟩
+  rw [hsA] at hflushed hwal hpost
+  simp only at hflushed hwal hpost ⊢
+  subst hflushed
+  have hgM : GoodC P dA m1 w1 (applyEff dA (.setMeta m1)) :=
+    ⟨rfl, fun _ _ _ => rfl, fun _ => Or.inl rfl, Or.inl (by simpa [applyEff] using hwal)⟩
+  have hstepMeta : run (⟨dA, []⟩ : Exec Content MetaRec WalRec LogRec)
+      [Ev.eff (.setMeta m1), Ev.fsync File.fMeta] = ⟨applyEff dA (.setMeta m1), []⟩ := by
+    simp [run, step, Eff.file, applyEffs]
+  have phaseC : ∀ q, q <+: post → ∀ img,
+      IsImage (run ⟨d0, vol0⟩ (pre ++ ([Ev.eff (.setMeta m1), Ev.fsync File.fMeta] ++ q))) img →
+      absOfL P L img = (absNew P dA m1 w1, absLog L m1 dA.log) := by
+    intro q hq img himg
+    obtain ⟨r, hr⟩ := hq
+    have hok : PostOKL P L dA m1 w1 ⟨applyEff dA (.setMeta m1), []⟩ q := by
+      apply postOKL_prefix P L dA m1 w1 q r; rw [hr]; exact hpost
+    rw [run_append, hsA, run_append, hstepMeta] at himg
+    exact (phaseCL_images P L dA m1 w1 hseq _ hgM rfl q hok img himg).1
+  constructor
+  · intro p hp img himg
+    rcases prefix_append_cases pre _ p hp with h1 | ⟨t, ht, rfl⟩
+    · left
+      obtain ⟨r, hr⟩ := h1
+      exact phaseAL'_images P L d0 hinert vol0 hvol0 p
+        (fun ev hev => hpre ev (by rw [← hr]; simp [hev])) img himg
+    · match t, ht with
+      | [], _ =>
+        left
+        rw [List.append_nil] at himg
+        exact phaseAL'_images P L d0 hinert vol0 hvol0 pre hpre img himg
+      | [ev1], ht =>
+        have h1 : ev1 = Ev.eff (.setMeta m1) := by
+          have := ht
+          simp only [List.cons_append, List.nil_append, List.cons_prefix_cons] at this
+          exact this.1
+        subst h1
+        rw [run_append, hsA] at himg
+        obtain ⟨sub, hsub, rfl⟩ := himg
+        simp only [run, List.foldl_cons, List.foldl_nil, step, List.nil_append] at hsub ⊢
+        cases sub with
+        | nil =>
+          left
+          apply phaseAL'_images P L d0 hinert vol0 hvol0 pre hpre
+          rw [hsA]
+          exact ⟨[], List.Sublist.refl _, rfl⟩
+        | cons e es =>
+          right
+          have hes : e = .setMeta m1 ∧ es = [] := by
+            have hlen := List.Sublist.length_le hsub
+            have hmem := hsub.subset (List.mem_cons_self)
+            simp only [List.mem_singleton] at hmem
+            refine ⟨hmem, ?_⟩
+            cases es with
+            | nil => rfl
+            | cons _ _ => simp at hlen
+          obtain ⟨rfl, rfl⟩ := hes
+          simp only [applyEffs, List.foldl_cons, List.foldl_nil]
+          exact (phaseCL_images P L dA m1 w1 hseq _ hgM rfl [] trivial _
+            ⟨[], List.Sublist.refl _, rfl⟩).1
+      | ev1 :: ev2 :: q, ht =>
+        right
+        have h12 : ev1 = Ev.eff (.setMeta m1) ∧ ev2 = Ev.fsync File.fMeta ∧ q <+: post := by
+          have := ht
+          simp only [List.cons_append, List.nil_append, List.cons_prefix_cons] at this
+          exact ⟨this.1, this.2.1, this.2.2⟩
+        obtain ⟨rfl, rfl, hq⟩ := h12
+        exact phaseC q hq img himg
+  · intro img himg
+    exact phaseC post (List.prefix_refl _) img himg
+
+end pending
+
+/-- the new live records after a commit are the old ones plus the appended record (when the meta keeps the start and
+moves the end to the new record, and nothing lay beyond the old end) -/
+theorem liveRecs_commit (L : LogParams MetaRec LogRec) (m0 m1 : MetaRec) (l : List LogRec) (r : LogRec)
+    (hs : L.startLive m1 = L.startLive m0) (he : L.endLive m1 = L.recId r)
+    (hr : L.endLive m0 < L.recId r) (hsr : L.startLive m0 ≤ L.recId r)
+    (hl : ∀ x ∈ l, L.recId x ≤ L.endLive m0) :
+    liveRecs L m1 (l ++ [r]) = liveRecs L m0 l ++ [r] := by
+  simp only [liveRecs, List.filter_append]
+  congr 1
+  · apply List.filter_congr
+    intro x hx
+    have := hl x hx
+    simp only [LogParams.live, hs, he]
+    congr 1
+    simp only [decide_eq_decide]
+    constructor <;> intro _ <;> omega
+  · simp [LogParams.live, hs, he, hsr]
+
 end NomtDisk
